@@ -418,7 +418,7 @@ func MResultOf(call ssa.CallInstruction, idx int) M {
 		if t.Op == "extract" && t.Call == cv && (idx < 0 || t.Idx == idx) {
 			return true
 		}
-		if (t.Op == "call" || t.Op == "len") && t.Call == cv && idx <= 0 {
+		if (t.Op == "call" || t.Op == "len") && t.Call == cv && idx <= 0 && cv.Call.Signature().Results().Len() <= 1 {
 			return true
 		}
 		return false
